@@ -8,22 +8,25 @@ META = dict(
     property_id='C11',
     design_ref='DESIGN.md section 4, C11',
     technique='Coq proof (token/stack-machine model, induction over grammar derivations and values) + source-generated leaf functions + extracted-model correspondence + Python json as independent parser',
-    level_text=('Theorems in coq/C11/Props.v about the executable model of tockenizer::next/parse_string/read_4_digits/parse_number, '
-                'parse_stream, generic_append/write_value and the extraction traits: for all byte strings parsing terminates with '
-                'Ok/Fail (fuel never exhausted); an accepted tree has only valid UTF-8 strings and keys, strictly sorted (unique) keys and '
-                'nesting <= 512; nesting 512 is accepted and 513 rejected; a failed load returns the old target; every document of an '
-                'RFC 8259 grammar (all escapes, paired surrogates, full number grammar, any whitespace) with unique keys within the '
-                'bound is accepted with the denoted value; write then parse gives the value back (numbers through the 16-digit '
-                'printer, exactly from the second round on) for compact and readable layout; integer extraction returns the exact '
-                'value or fails. Refuted and recorded: a string holding ill-formed UTF-8 and the two largest finite doubles are '
-                'written to text the reader rejects. Leaf functions (UTF-8/UTF-16 helpers, escape switch, depth constant) are '
-                'regenerated from the current source and proved equal to the model leafs.'),
+    level_text=('Theorems in coq/C11/Props.v (34, all closed under the global context) about the executable model of tockenizer::next/'
+                'parse_string/read_4_digits/parse_number, parse_stream, generic_append/write_value and the extraction traits, for all '
+                'byte strings / values (unbounded): parsing terminates with Ok/Fail (fuel S|input| never exhausted); an accepted tree has only '
+                'valid UTF-8 strings and keys, strictly sorted hence pairwise different keys, no undefined member and nesting <= 512, and '
+                'the bound is tight (512 accepted, 513 rejected); a failed load returns the old target; every text of an inductive '
+                'RFC 8259 grammar (whitespace anywhere allowed, all escapes, paired surrogates, full number grammar, unique keys, nesting '
+                'budget <= 512) is accepted with exactly the denoted value, also in prefix mode; the writer output of a value without '
+                'undefined members, with valid UTF-8 strings and printable numbers lies in that grammar for the compact and every readable '
+                'layout, so save then load returns the value (numbers through the 16-digit printer) and every later round is exact; '
+                'integer extraction returns the exact value or fails. Refuted and recorded as known findings: a string holding ill-formed '
+                'UTF-8 and the two largest finite doubles are written to text the reader rejects. Leaf functions (UTF-8/UTF-16 helpers, '
+                'escape switch, depth constant) are regenerated from the current source and proved equal to the model leafs.'),
     level_note=('Trusted: Coq kernel + vm_compute; cxx2v translator / clang AST (plus the escape-switch extractor in checks/C11.py); '
                 'extraction; the hand model of the tokenizer loop, of libstdc++ num_get float accumulation and of the explicit-stack '
-                'loop (tied by correspondence on every generated case, exhaustive for documents of <= 2 bytes and all \\uXXXX); '
-                'strtod, printf %.16g and double->float rounding are parameters of the model (instantiated by the platform functions '
-                'in the model driver and cross-checked against Python float()/repr in the oracle). Stream flags other than the locale '
-                '(showpos, width, fixed) are not covered.'),
+                'loop (tied by correspondence on every generated case, exhaustive for documents of <= 2 bytes); '
+                'strtod, the 16-digit printer and double->float rounding are parameters of the model (universally quantified in the theorems, '
+                'instantiated by the platform functions in the model driver and cross-checked against Python float()/repr in the oracle). '
+                'The grammar theorem takes "the decoded content of each string literal is valid UTF-8" as a premise of the grammar. '
+                'Stream locale handling (imbue) is exercised by the harness only; stream flags other than the locale are not covered.'),
 )
 
 GEN = {
@@ -1093,12 +1096,15 @@ def run(ctx):
         'hand model of tockenizer::next, parse_string, libstdc++ num_get float accumulation, parse_stream loop, write_value layout (coq/C11/Defs.v)',
         'strtod / printf %.16g / double->float conversion: parameters of the model, instantiated in the driver by the platform functions']
     ctx.assumptions = [
-        'to_double (strtod, failing on partial consumption or infinity), print16 (%.16g) and to_float are parameters of the model; the round-trip theorem '
-        'assumes, for the numbers in the value: print16 x has the shape -?(0|[1-9][0-9]*)(.[0-9]+)?(e[+-]?[0-9]+)? , to_double (print16 x) = Some (rt x), rt (rt x) = rt x '
-        '(checked on every generated number by the oracle; false for the two largest finite doubles of each sign: known finding)',
+        'to_double (strtod on the text accumulated by num_get, None when the result is not finite), print16 (ostream<<setprecision(16)<<double under the C locale) '
+        'and to_float are parameters of the model, universally quantified in every theorem; write_parse / save_load_roundtrip assume for each number x of the value '
+        '(num_ok): print16 x is an RFC 8259 number lexeme and to_double of it is Some (rt x); write_parse_second_round_exact also assumes the same for rt x and '
+        'rt (rt x) = rt x (checked on every generated number by the oracle with Python %.16g / float(); false for the two largest finite doubles of each sign: known finding)',
+        'rfc8259_accepted: the grammar Val requires the decoded content of each string literal and key to be valid UTF-8 (utf8_valid) and to_double of each number lexeme to be finite',
+        'write_parse: wgood v = no undefined member, strings and keys valid UTF-8 (known finding otherwise), objects sorted by key (std::map invariant), depth v <= 512',
         'signed arithmetic in translated leaf functions does not overflow; char is signed 8-bit, unsigned char 8-bit',
         'libstdc++ num_get<char>::_M_extract_float accumulation rule under the classic locale as modelled by scan_number (tied by correspondence only)',
-        'the stream handed to load() is in good state; stream flags other than the locale are the defaults']
+        'the stream handed to load() is in good state; stream flags other than the locale are the defaults; locale imbue/restore is exercised by the harness, not modelled']
     exe, err = vlib.build_harness('C11_json', ['C11_json.cpp'])
     if not exe:
         ctx.broke('harness build failed', err)
